@@ -24,6 +24,10 @@ ENTRY_POINTS = ['parse_observable', 'mem_store_ctor', 'mem_source_ctor', 'mem_si
                 'fs_sink_add_list', 'fs_sink_add_text', 'fs_store_query', 'fs_store_all_versions']
 
 
+PRELOADABLE = ('mem_store_add', 'mem_sink_add', 'mem_source_load', 'mem_store_load', 'env_add', 'mem_store_add_list',
+               'mem_store_add_bundle', 'mem_store_load_bundle')
+
+
 def mk_uuid(kind, n):
     base = C.mkuuid(n, 'c14')
     if kind == 'v4':
@@ -87,7 +91,8 @@ class C14(Profile):
     wall_cap = {'quick': 1200, 'thorough': 6 * 3600}
     probes = ['named_version_differs_from_detected', 'nonrfc_id_rejected', 'uuidv1_id', 'accepted_object_checked',
               'rejected_by_both', 'dict_returned', 'roundtrip_checked', 'fs_entry', 'memory_entry', 'load_entry',
-              'nonrfc_ref_rejected', 'fs_layout_flat', 'fs_layout_flat_in_versioned_dir', 'fs_layout_versioned']
+              'nonrfc_ref_rejected', 'fs_layout_flat', 'fs_layout_flat_in_versioned_dir', 'fs_layout_versioned',
+              'store_already_held_this_version']
     rule = ('plans: 20-60 ops, each = (entry point among parse_observable, Memory{Store,Source,Sink} construction/add/load, '
             'FileSystem{Sink,Store}.add, FileSystem{Source,Store}.get/all_versions/query, Environment.add) x version in {None,2.0,2.1} x '
             'allow_custom x one of 23 inputs that separate the versions (differing required properties, spec_version present/absent, '
@@ -108,6 +113,9 @@ class C14(Profile):
             op = {'op': 'entry', 'ep': ep, 'v': rng.choice([None, '2.0', '2.1', '2.0', '2.1']), 'a': rng.random() < 0.5,
                   'inp': key, 'idk': rng.choice(ID_KINDS), 'refk': rng.choice(ID_KINDS + ['v4', 'v4', 'v4']), 'n': index * 100 + n,
                   'ls_key': rng.randrange(100)}
+            if ep in PRELOADABLE and rng.random() < 0.4:
+                # history: the store already holds this (id, modified) - put there under another version / spelling
+                op['pre'] = {'v': rng.choice([None, '2.0', '2.1']), 'respell': rng.random() < 0.3}
             if ep == 'roundtrip':
                 op['v'] = None
                 op['rt_ver'] = rng.choice(['2.0', '2.1'])
@@ -118,6 +126,8 @@ class C14(Profile):
 
     def simplify(self, op):
         out = []
+        if op.get('pre'):
+            out.append({k: v for k, v in op.items() if k != 'pre'})
         if op.get('idk') != 'v4':
             out.append(dict(op, idk='v4'))
         if op.get('refk') != 'v4':
@@ -146,7 +156,19 @@ class C14(Profile):
         os.makedirs(d)
         return d
 
-    def run_entry(self, sw, ep, d, a, v, i):
+    def preloaded(self, cls, d, a, pre):
+        """A memory store/sink/source; with `pre`, one that already holds d's (id, modified) from an earlier, separate operation."""
+        if pre:
+            first = C._copy(d)
+            if pre.get('respell') and first.get('modified', '').endswith('.000Z'):
+                first['modified'] = first['modified'][:-5] + 'Z'
+            o = call(cls, stix_data=[first], allow_custom=a, version=pre['v'])
+            if o.ok:
+                self.sw.world.probe('store_already_held_this_version')
+                return o.value
+        return cls(allow_custom=a)
+
+    def run_entry(self, sw, ep, d, a, v, i, pre=None):
         """Returns (Outcome of the entry point, list of objects it yields or None when only acceptance is observable)."""
         s = self.stix2
         from stix2 import MemoryStore, MemorySource, MemorySink, FileSystemSink, FileSystemSource, FileSystemStore, Environment
@@ -164,19 +186,19 @@ class C14(Profile):
             o = call(MemorySink, stix_data=[cp()], allow_custom=a, version=v)
             return o, None
         if ep == 'mem_store_add':
-            S = MemoryStore(allow_custom=a)
+            S = self.preloaded(MemoryStore, d, a, pre)
             o = call(S.add, cp(), version=v)
             return o, (S.query([]) if o.ok else None)
         bundle = lambda: dict({'type': 'bundle', 'id': C.mkid('bundle', i), 'objects': [cp()]},
                               **({'spec_version': '2.0'} if 'spec_version' not in d else {}))
         if ep in ('mem_store_add_list', 'mem_store_add_bundle'):
-            S = MemoryStore(allow_custom=a)
+            S = self.preloaded(MemoryStore, d, a, pre)
             o = call(S.add, [[cp()]] if ep.endswith('list') else bundle(), version=v)
             return o, (S.query([]) if o.ok else None)
         if ep == 'mem_store_load_bundle':
             path = os.path.join(self.fresh_dir(sw, i, 'loadb'), 'in.json')
             sw.disk.raw_write(os.path.relpath(path, sw.disk.root), json.dumps(bundle()).encode())
-            S = MemoryStore(allow_custom=a)
+            S = self.preloaded(MemoryStore, d, a, pre)
             o = call(S.load_from_file, path, version=v)
             return o, (S.query([]) if o.ok else None)
         if ep in ('fs_sink_add_list', 'fs_sink_add_bundle_text', 'fs_sink_add_text'):
@@ -186,18 +208,18 @@ class C14(Profile):
             o = call(S.add, arg, version=v)
             return o, None
         if ep == 'mem_sink_add':
-            S = MemorySink(allow_custom=a)
+            S = self.preloaded(MemorySink, d, a, pre)
             o = call(S.add, cp(), version=v)
             return o, None
         if ep == 'env_add':
-            S = MemoryStore(allow_custom=a)
+            S = self.preloaded(MemoryStore, d, a, pre)
             env = Environment(factory=s.ObjectFactory(), store=S)
             o = call(env.add, cp(), version=v)
             return o, (env.query([]) if o.ok else None)
         if ep in ('mem_source_load', 'mem_store_load'):
             path = os.path.join(self.fresh_dir(sw, i, 'load'), 'in.json')
             sw.disk.raw_write(os.path.relpath(path, sw.disk.root), json.dumps(d).encode())
-            S = MemoryStore(allow_custom=a) if ep == 'mem_store_load' else MemorySource(allow_custom=a)
+            S = self.preloaded(MemoryStore if ep == 'mem_store_load' else MemorySource, d, a, pre)
             o = call(S.load_from_file, path, version=v)
             return o, (S.query([]) if o.ok else None)
         if ep in ('fs_sink_add', 'fs_store_add'):
@@ -244,7 +266,7 @@ class C14(Profile):
         if ep.startswith('fs_') and op['idk'] == 'garbage':
             pass
         ref = None if is_sco_ep else call(s.parse, C._copy(d), allow_custom=a, version=v)
-        out, objs = self.run_entry(sw, ep, d, a, v, i)
+        out, objs = self.run_entry(sw, ep, d, a, v, i, op.get('pre'))
         detected = '2.1' if ('spec_version' in d or (d['type'] in ('ipv4-addr',) and 'id' in d)) else '2.0'
         if v and v != detected:
             world.probe('named_version_differs_from_detected')
